@@ -17,6 +17,7 @@ pub struct Arm {
     pub c13: bool,
     pub c19: bool,
     pub c09: bool,
+    pub c11: bool,
 }
 
 #[derive(Clone)]
@@ -275,7 +276,11 @@ impl Scenario for HubCore {
         }
         g2
     }
-    fn state(&self, c: &Chain, o: &HubObs, _g: &G, cx: &mut Cx) {
+    fn state(&self, c: &Chain, o: &HubObs, g: &G, cx: &mut Cx) {
+        if self.arm.c11 {
+            let acts = self.actions(c, o, g);
+            crate::pause::c11_probe(c, o, &acts, cx);
+        }
         if self.arm.c03 {
             c03_state(o, cx);
         }
@@ -928,6 +933,7 @@ fn c09_pair(pre: &Chain, a: &Action, out: &Outcome, post: &Chain, cx: &mut Cx) {
         let mut c = pre.clone();
         set_modes(&mut c, sm, om);
         let o2 = apply(&mut c, a);
+        cx.probe(1);
         set_modes(&mut c, Mode::Ok, Mode::Ok);
         if o2.res != out.res || c.fingerprint() != base_fp {
             cx.viol(
@@ -958,6 +964,7 @@ fn c09_probe(c: &Chain, o: &HubObs, cx: &mut Cx) {
                 let mut cc = c.clone();
                 let bid = o.batch.id;
                 let r = apply(&mut cc, &unbond(u, tok, amt));
+                cx.probe(if amt == bal { 4 } else { 1 });
                 if !r.ok() {
                     cx.viol("C09.can_unbond", format!("unbond of {} refused: {}", if amt == bal { "the whole balance" } else { "one unit" }, crate::unbondlc::classify_err(r.err())), format!("{} {} {} of {}: {}", u, tok, amt, bal, r.err()));
                     continue;
